@@ -456,6 +456,14 @@ impl Scanner {
             return Ok(result);
         }
 
+        // an unterminated raw string runs to the end of the input and may span lines:
+        // register them, so that the reported location is a real (line, column)
+        for (index, &ch) in result.iter().enumerate() {
+            if ch == '\n' {
+                self.add_line(self.pos + index + 1)
+            }
+        }
+
         let offset = self.pos + result.len();
         Err(self.error_at(offset, "string literal not terminated"))
     }
